@@ -105,6 +105,13 @@ pub fn check(scn: &Scenario, stats: &mut Stats) -> Vec<Violation> {
                     return out;
                 }
             }
+            // a label that names a piece of data is no label of any instruction, let alone a function's
+            for (i, n) in s.nodes.iter().enumerate() {
+                if let Some(l) = n.labels.iter().find(|l| rp.data_labels.contains(l)) {
+                    out.push(viol("F1:function-is-call-target", "F1:data-label-on-instruction".into(), format!("entropy {e}: `{l}` is written in the data segment in front of a piece of data, yet it is a label of {}{}", at(s, i), if n.is_func_entry { " (a function entry: the function is known under that name)" } else { "" })));
+                    return out;
+                }
+            }
             for n in s.nodes.iter().filter(|n| n.is_func_entry) {
                 if !n.labels.iter().any(|l| called.contains(l) || maybe.contains(l)) {
                     out.push(viol("F1:function-is-call-target", "F1:function-without-call".into(), format!("entropy {e}: function entry with labels {:?} but no call names any of them (called: {called:?})", n.labels)));
